@@ -329,6 +329,13 @@ def r1(ctx):
                           "component_handlers[%r] = %s" % (comp, handlers.get(comp)),
                           "component_handlers maps %s to %s, expected %s" % (comp, handlers.get(comp), fname)))
         fi = ctx.func(ICAL + "." + fname)
+        mod_funcs = fi.module.functions
+
+        def resolver(d, _m=mod_funcs):
+            # a module-level helper of xandikos.icalendar called by its bare name (interpreted like the caller)
+            f_ = _m.get(d)
+            return f_.node if f_ is not None and f_.cls is None and isinstance(f_.node, ast.FunctionDef) else None
+
         for row in rows:
             free = [p for p in universe if row.present.get(p) is None]
             n_eval = 0
@@ -343,7 +350,7 @@ def r1(ctx):
                             if not _admissible(rank, durpos if "DURATION" in present else None):
                                 continue
                             sc = Scenario(present, isdt, durpos, rank, has_period=row.period)
-                            got = Interp(fi.node, sc, fi.short).run()
+                            got = Interp(fi.node, sc, fi.short, resolver).run()
                             want = row.formula(rank)
                             n_eval += 1
                             if got != want and cex is None:
